@@ -13,13 +13,16 @@ import (
 // communication is SMT-LIB2 text; any "(error" line or an answer other than
 // sat/unsat makes the query inconclusive (never "holds").
 type Solver struct {
-	cmd  *exec.Cmd
-	in   io.WriteCloser
-	out  *bufio.Reader
-	w    *bufio.Writer
-	Time time.Duration
-	N    int
-	log  *strings.Builder // optional transcript of assert/safety queries
+	cmd     *exec.Cmd
+	in      io.WriteCloser
+	out     *bufio.Reader
+	w       *bufio.Writer
+	Time    time.Duration
+	N       int
+	log     *strings.Builder // optional transcript of assert/safety queries
+	rec     bool
+	lines   []string
+	answers []string
 }
 
 type solverUnknown struct{ msg string }
@@ -40,7 +43,13 @@ func newDefaultSolver() *Solver {
 	return NewSolver("z3", "-in", "-t:20000")
 }
 
-func (s *Solver) send(l string) { s.w.WriteString(l); s.w.WriteByte('\n') }
+func (s *Solver) send(l string) {
+	s.w.WriteString(l)
+	s.w.WriteByte('\n')
+	if s.rec && !strings.HasPrefix(l, "(get-value") && !strings.HasPrefix(l, "(echo") {
+		s.lines = append(s.lines, l)
+	}
+}
 
 func (s *Solver) readLine() string {
 	line, err := s.out.ReadString('\n')
@@ -52,6 +61,9 @@ func (s *Solver) readLine() string {
 
 func (s *Solver) readAnswer() bool {
 	line := s.readLine()
+	if s.rec {
+		s.answers = append(s.answers, line)
+	}
 	switch line {
 	case "sat":
 		return true
@@ -233,4 +245,54 @@ func smtValToInt(v string) (uint64, bool) {
 		return r, err == nil
 	}
 	return 0, false
+}
+
+// Transcript: every command of one explored path (declarations, assertions, push/pop,
+// check-sat) with z3's answers, for re-deciding by other solvers.
+type Transcript struct {
+	Lines   []string
+	Answers []string
+}
+
+// crossSolve feeds transcripts to another incremental solver and counts disagreements.
+func crossSolve(bin string, args []string, prelude string, ts []Transcript) (checked, disagree int, err error) {
+	s := NewSolver(bin, args...)
+	defer s.close()
+	if prelude != "" {
+		s.send(prelude)
+	}
+	for _, t := range ts {
+		s.send("(push 1)")
+		ai := 0
+		for _, l := range t.Lines {
+			if l == "(push)" {
+				l = "(push 1)"
+			}
+			if l == "(pop)" {
+				l = "(pop 1)"
+			}
+			s.send(l)
+			if l == "(check-sat)" {
+				s.w.Flush()
+				line, e := s.out.ReadString('\n')
+				if e != nil {
+					return checked, disagree, fmt.Errorf("%s died: %v", bin, e)
+				}
+				line = strings.TrimSpace(line)
+				if strings.HasPrefix(line, "(error") {
+					return checked, disagree, fmt.Errorf("%s: %s", bin, line)
+				}
+				if ai < len(t.Answers) {
+					checked++
+					if line != t.Answers[ai] {
+						disagree++
+					}
+				}
+				ai++
+			}
+		}
+		s.send("(pop 1)")
+	}
+	s.w.Flush()
+	return checked, disagree, nil
 }
